@@ -264,6 +264,27 @@ func init() {
 			return "", fmt.Errorf("workerPool.Submit not found")
 		}
 		sb.WriteString("def submitSteps : List String := " + LeanStrList(c19Steps(sub.Body)) + "\n\n")
+		// anything Submit does after the send `p.tasks <- task` succeeded
+		recheck := false
+		ast.Inspect(sub.Body, func(n ast.Node) bool {
+			if cc, ok := n.(*ast.CommClause); ok {
+				if snd, ok := cc.Comm.(*ast.SendStmt); ok && len(cc.Body) > 0 {
+					_ = snd
+					recheck = true
+				}
+			}
+			return true
+		})
+		if !recheck {
+			// … or after the select statement
+			for i, st := range sub.Body.List {
+				if _, ok := st.(*ast.SelectStmt); ok && i != len(sub.Body.List)-1 {
+					recheck = true
+				}
+			}
+		}
+		sb.WriteString("/-- `workerPool.Submit` goes on after the task was put into the queue (e.g. re-checks Stopped()) -/\n")
+		sb.WriteString(fmt.Sprintf("def submitRechecksStopped : Bool := %v\n\n", recheck))
 		var rej []string
 		if fd := FindFunc(plf, "workerPool", "reject"); fd != nil {
 			rej = c19Steps(fd.Body)
